@@ -20,7 +20,7 @@ class C01(ChanSpec):
                   "interleavings inside one uninstrumented statement and the pool's internals are not controlled; schedules explored are sampled/bounded, not exhaustive.")
     rule = ("random scenarios: sync or async (qcap 1-4, blocking/non-blocking), 1-3 writer goroutines x 1-3 calls drawn from Write1/Writev/Writer().Write/CtxWrite1/CtxWritev with payload "
             "sizes 0-5 (self-describing bytes); each under random schedules of 4 stickiness levels plus preemption-bounded DFS on further scenarios; one evaluation = one complete execution "
-            "followed step by step; non-trivial = every execution (distinct by full step trace)")
+            "followed step by step; non-trivial = every execution (distinct by full step trace); C01/C02/C06: 1/4 of the async scenarios run over transport.NewTransport(conn, 0, 4|16|4096) on a connection whose writes are scheduling points (connection bytes must be a prefix of the transport-level writes and contain everything written before the last flush); C01: a closer in 1/3 of the scenarios")
     assumptions = ("transport accepts writes (no failure, no Close) in C01 scenarios", "one goroutine runs at a time between yield points (cooperative controller)")
     modelled_not_verified = ("Go channel / atomic / sync.Mutex semantics", "utils/pool (C19)", "executor (any executor that runs submitted actions)")
 
